@@ -204,7 +204,7 @@ func c10CollectionK(blocks int, keyed bool) (*column.Collection, []uint32) {
 }
 
 type c10WriterOp struct {
-	Kind int // 0 put all three, 1 merge all three, 2 delete row + insert a new one
+	Kind int // 0 put all three, 1 merge all three, 2 delete row + insert a new one, 3/4 put/merge through accessors after a positioning QueryAt
 	Row  uint32
 }
 
@@ -228,6 +228,22 @@ func c10Write(c *column.Collection, ops []c10WriterOp, version int, cur map[uint
 					r.MergeUint64("c", uint64(d))
 					return nil
 				})
+				cur[op.Row] = version
+			case 3, 4:
+				// accessor style: the point query only positions the cursor, the writes go through column
+				// accessors AFTER it returned (3: stores, 4: merges)
+				txn.QueryAt(op.Row, func(column.Row) error { return nil })
+				a, b, cc := txn.Int("a"), txn.Int("b"), txn.Uint64("c")
+				if op.Kind == 3 {
+					a.Set(version)
+					b.Set(-version)
+					cc.Set(uint64(version))
+				} else {
+					d := version - cur[op.Row]
+					a.Merge(d)
+					b.Merge(-d)
+					cc.Merge(uint64(d))
+				}
 				cur[op.Row] = version
 			case 2:
 				txn.DeleteAt(op.Row)
@@ -360,7 +376,7 @@ func TestC10Latched(t *testing.T) {
 		nops := rapid.IntRange(1, 3).Draw(t, "nops")
 		var ops []c10WriterOp
 		for i := 0; i < nops; i++ {
-			ops = append(ops, c10WriterOp{Kind: rapid.IntRange(0, 2).Draw(t, "kind"), Row: uint32(rapid.IntRange(0, blocks-1).Draw(t, "blk"))<<14 + uint32(rapid.IntRange(0, 5).Draw(t, "row"))})
+			ops = append(ops, c10WriterOp{Kind: rapid.IntRange(0, 4).Draw(t, "kind"), Row: uint32(rapid.IntRange(0, blocks-1).Draw(t, "blk"))<<14 + uint32(rapid.IntRange(0, 5).Draw(t, "row"))})
 		}
 		// no two ops on one row (a deleted row must not be written again)
 		seen := map[uint32]bool{}
